@@ -123,7 +123,7 @@ def c01_r1_commit_protocol(ctx):
 def held_at_stores(ctx, f, points, lock_desc):
     """a store through a MutexGuard deref: the guard local must be live at the block."""
     for p in points:
-        classes = core.held_classes_at(p.fn, p.bb, p.idx)
+        classes = core.held_classes_at(p.fn, p.bb, p.idx, must=True)
         # statement-level: guard must be live at the terminator of the block or acquired earlier in block
         okk = any(c == lock_desc or c.endswith(lock_desc) for c in classes)
         ctx._ob(okk, ctx.sample('held', p.fn, p.line, '%s under lock %s' % (p.desc, lock_desc)))
